@@ -8,6 +8,7 @@ that the memoised search equals the reaching-definitions semantics.
 from sa.core import rule, AnalysisError
 from sa import cxx
 from sa.cxx import term, uncast, inner, strip
+from rules import _cxxutil_c07c08 as U
 
 TECHNIQUE = ("static analysis over clang's type-resolved AST of solver.cc: "
              "must-dataflow (dominance / post-dominance) and guard-shape rules")
@@ -91,206 +92,466 @@ def _range_for(s):
   return loopvar, inner(rng_decl)[-1], body
 
 
-def _is_true_ret(s):
-  if s.get("kind") != "ReturnStmt" or not inner(s):
-    return False
-  return uncast(term(None, strip(inner(s)[0]))) == ("bool", True) \
-      if strip(inner(s)[0]).get("kind") == "CXXBoolLiteralExpr" else False
+def _ret_true(x):
+  return x.get("kind") == "ReturnStmt" and U.return_value(x) is not None and \
+      U.bool_literal(U.return_value(x)) is True
+
+
+def _ret_false(x):
+  return x.get("kind") == "ReturnStmt" and U.return_value(x) is not None and \
+      U.bool_literal(U.return_value(x)) is False
+
+
+def _calls(ix, root, needle):
+  """Call nodes under `root` whose resolved callee key contains `needle`."""
+  return [n for n in cxx.walk(root)
+          if n.get("kind") in ("CallExpr", "CXXMemberCallExpr")
+          and needle in (ix.callee(n)[0] or "")]
+
+
+def _search_fn(ix):
+  """The search driver Solver::FindSolution: by name, else by role (the one
+  Solver method that calls internal::remove_finished_goals)."""
+  cands = [f for f in ix.by_key.values()
+           if f.qual == "Solver::FindSolution" and f.body is not None]
+  if not cands:
+    cands = [f for f in ix.by_key.values()
+             if f.file == SC and f.cls == "Solver" and f.body is not None
+             and _calls(ix, f.body, "remove_finished_goals")]
+  if len(cands) != 1:
+    raise AnalysisError("anchor: the search driver (Solver::FindSolution, the "
+                        "caller of remove_finished_goals) not found")
+  return cands[0]
+
+
+def _state_param(fs):
+  ps = [p for p in fs.params if "State" in cxx.qual_type(p) and
+        "StateSet" not in cxx.qual_type(p)]
+  if len(ps) != 1:
+    raise AnalysisError(f"{fs.name}: State parameter not found")
+  return U.var_of(ps[0])
+
+
+def _is_pos_of(t, state_p):
+  """t == <state>.pos() for the State parameter of the search driver."""
+  t = uncast(t)
+  return isinstance(t, tuple) and t[0] == "mcall" and "State::pos" in str(t[1]) \
+      and uncast(t[2]) == state_p and len(t) == 3
+
+
+def _results_loop(ix, fs):
+  """The loop over the removal results: the range-for whose element type is
+  RemoveResult (whatever the container variable is called)."""
+  out = []
+  for lp in cxx.walk(fs.body):
+    if lp.get("kind") == "CXXForRangeStmt":
+      lv, rng, body = U.range_for(lp)
+      if "RemoveResult" in cxx.qual_type(lv):
+        out.append((lp, lv, body))
+  if len(out) != 1:
+    raise AnalysisError(f"{fs.name}: loop over removal results not found")
+  return out[0]
+
+
+def _conflict_fns(ix):
+  """GoalsConflict (member or free function): by name, else by role (a bool
+  predicate over one GoalSet that looks at goal->variable() and fills a map)."""
+  out = [f for f in ix.by_key.values()
+         if f.name == "GoalsConflict" and f.file == SC and f.body is not None]
+  if not out:
+    for f in ix.by_key.values():
+      if f.file != SC or f.body is None or len(f.params) != 1 or \
+          not f.sig.startswith("bool") or "GoalSet" not in cxx.qual_type(f.params[0]):
+        continue
+      if _calls(ix, f.body, "Binding::variable") and any(
+          n.get("kind") == "CXXMemberCallExpr" and
+          ix.callee(n)[2] in ("emplace", "insert", "try_emplace")
+          for n in cxx.walk(f.body)):
+        out.append(f)
+  if len(out) != 1:
+    raise AnalysisError("anchor: the conflict predicate (GoalsConflict) not found")
+  return out
+
+
+def _pred_term(ix, e, env, skip, depth=2):
+  """Term of a condition; `!`, `&&`, `||` are kept structural and a call of a
+  file-local single-`return` predicate is replaced by its returned expression."""
+  s = strip(e)
+  if s is None:
+    return None
+  k = s.get("kind")
+  kids = inner(s)
+  if k == "UnaryOperator" and s.get("opcode") == "!":
+    return ("!", _pred_term(ix, kids[0], env, skip, depth))
+  if k == "BinaryOperator" and s.get("opcode") in ("&&", "||"):
+    return (s.get("opcode"), _pred_term(ix, kids[0], env, skip, depth),
+            _pred_term(ix, kids[1], env, skip, depth))
+  if depth > 0:
+    h = U.local_callee(ix, s)
+    if h is not None and h.key not in skip:
+      body = [x for x in U.stmts(h.body) if x.get("kind") != "DeclStmt"]
+      if len(body) == 1 and body[0].get("kind") == "ReturnStmt" and \
+          U.return_value(body[0]) is not None:
+        henv = dict(env)
+        henv.update(U.bind_params(ix, h, s, env))
+        henv = U.once_bound_env(ix, h, henv)
+        return _pred_term(ix, U.return_value(body[0]), henv, skip, depth - 1)
+  return uncast(term(ix, s, env))
 
 
 @rule("R7.1", "C07", floor=4)
 def r7_1(ctx):
   """Conflicting removals are discarded before any acceptance."""
   ix = _ix(ctx)
-  fs = ix.find("Solver::FindSolution")[0]
-  # the loop over `results`
-  loops = [n for n in cxx.walk(fs.body) if n.get("kind") == "CXXForRangeStmt"]
-  target = None
-  for lp in loops:
-    lv, rng, body = _range_for(lp)
-    t = uncast(term(ix, rng))
-    if isinstance(t, tuple) and t[0] == "var" and "results" in str(t[1]):
-      target = (lp, lv, body)
-  if target is None:
-    raise AnalysisError("FindSolution: loop over removal results not found")
-  lp, lv, body = target
-  res = ("var", lv.get("name"), lv["id"])
-  guard = None
-  for s in _stmts(body):
-    if s.get("kind") == "IfStmt":
-      cond, then, els = _if_parts(s)
-      c = uncast(term(ix, cond))
-      if isinstance(c, tuple) and c[0] == "mcall" and str(c[1]).startswith("Solver::GoalsConflict"):
-        guard = (s, c, then, els)
-        break
-      if isinstance(c, tuple) and c[0] == "!" and "GoalsConflict" in str(c):
-        raise AnalysisError("FindSolution: negated GoalsConflict guard - idiom not understood")
-  if guard is None:
-    ctx.bad("FindSolution:conflict-guard", SC, _line(lp),
-            "no `if (GoalsConflict(result.removed_goals))` guard is a direct "
-            "statement of the loop over removal results")
+  fs = _search_fn(ix)
+  fname = fs.name
+  gcs = _conflict_fns(ix)
+  ckeys = {f.key for f in gcs}
+  recursive = U.reaching(ix, fs.key)
+  env = U.once_bound_env(ix, fs)
+  lp, lv, body = _results_loop(ix, fs)
+  res = U.var_of(lv)
+  accepts = []     # (what, node, guarded)
+  guards = []      # (if-stmt, form, call term, then, else)
+
+  def classify(cond):
+    t = _pred_term(ix, cond, env, ckeys | recursive)
+    for d in U.flatten(t, "||"):
+      if U.call_parts(d)[0] in ckeys:
+        return "pos", d
+    for c in U.flatten(t, "&&"):
+      if isinstance(c, tuple) and c and c[0] == "!" and \
+          U.call_parts(c[1])[0] in ckeys:
+        return "neg", uncast(c[1])
+    if any(k in str(t) for k in ckeys):
+      raise AnalysisError(f"{fname}: the conflict test occurs in a condition "
+                          f"that is not understood: {t}")
+    return None, None
+
+  def sites(e, g):
+    if e is None:
+      return
+    for n in cxx.walk(e):
+      if n.get("kind") in ("CallExpr", "CXXMemberCallExpr"):
+        f = ix.callee(n)[1]
+        if f is not None and f.key in recursive:
+          accepts.append((f.name, n, g))
+
+  def scan(s, g):
+    """Visits statement s knowing whether the conflict test has excluded a
+    conflict (g); returns g after s, or None when s never falls through."""
+    if s is None or not s.get("kind"):
+      return g
+    k = s["kind"]
+    if k == "CompoundStmt":
+      for c in inner(s):
+        g = scan(c, g)
+        if g is None:
+          return None
+      return g
+    if k == "ReturnStmt":
+      v = U.return_value(s)
+      if v is not None:
+        sites(v, g)
+        b = U.bool_literal(v)
+        if b is not False:
+          accepts.append(("return true" if b else "return <expr>", s, g))
+      return None
+    if k in ("ContinueStmt", "BreakStmt"):
+      return None
+    if k == "IfStmt":
+      init, var, cond, then, els = U.if_parts(s)
+      sites(init, g)
+      sites(var, g)
+      sites(cond, g)
+      form, ct = classify(cond)
+      gt, ge = g, g
+      if form == "pos":
+        ge = True
+      elif form == "neg":
+        gt = True
+      if form:
+        guards.append((s, form, ct, then, els))
+      a = scan(then, gt)
+      b = scan(els, ge) if els is not None else ge
+      outs = [x for x in (a, b) if x is not None]
+      return all(outs) if outs else None
+    if k in ("ForStmt", "WhileStmt", "DoStmt", "CXXForRangeStmt"):
+      kids = inner(s)
+      bd = kids[0] if k == "DoStmt" else kids[-1]
+      for c in kids:
+        if c is not bd:
+          sites(c, g)
+      scan(bd, g)
+      return g
+    if k in ("SwitchStmt", "CXXTryStmt", "CXXCatchStmt", "CaseStmt", "DefaultStmt",
+             "LabelStmt", "AttributedStmt"):
+      for c in inner(s):
+        if c.get("kind", "").endswith("Stmt") and c.get("kind") != "DeclStmt":
+          scan(c, g)
+        else:
+          sites(c, g)
+      return g
+    if k == "GotoStmt":
+      raise AnalysisError(f"{fname}: goto in the loop over removal results")
+    sites(s, g)
+    return g
+
+  scan(body, False)
+  if not guards:
+    # the test may sit in a helper the loop body calls: that is not decided
+    for n in cxx.walk(body):
+      h = U.local_callee(ix, n)
+      if h is not None and h.key not in recursive and h.key not in ckeys:
+        for m, _, _ in U.walk_inlined(ix, h, depth=1, skip=recursive):
+          if m.get("kind") in ("CallExpr", "CXXMemberCallExpr") and \
+              (ix.callee(m)[0] or "") in ckeys:
+            raise AnalysisError(f"{fname}: the conflict test is made inside "
+                                f"helper {h.name}; idiom not understood")
+    ctx.bad(f"{fname}:conflict-guard", SC, _line(lp),
+            "no `if (GoalsConflict(result.removed_goals))` test guards the "
+            "body of the loop over removal results")
     return
-  s, c, then, els = guard
-  arg = uncast(c[3]) if len(c) > 3 else None
+  s, form, ct, then, els = guards[0]
+  args = U.call_parts(ct)[1]
+  arg = args[0] if args else None
   ok_arg = isinstance(arg, tuple) and arg[0] == "field" and \
       arg[1].endswith("RemoveResult::removed_goals") and uncast(arg[2]) == res
-  ctx.check(ok_arg, "FindSolution:conflict-guard-argument", SC, _line(s),
+  ctx.check(ok_arg, f"{fname}:conflict-guard-argument", SC, _line(s),
             f"GoalsConflict is applied to {arg}; it must test the goals "
-            "removed together in this result", {"arg": str(arg)})
-  ctx.check(_leaves_iteration(then) and els is None and not any(
-      _is_true_ret(x) for x in cxx.walk(then)),
-      "FindSolution:conflict-guard-discards", SC, _line(s),
-      "the true-branch of the conflict guard must abandon this removal "
-      "result (continue/break/return false)")
-  # dominance of every acceptance in the loop body
-  gid = id(s)
-  order = _stmts(body)
-  gi = [i for i, x in enumerate(order) if x is s][0]
-  accept = []
-  for i, st in enumerate(order):
-    for n in cxx.walk(st):
-      if n.get("kind") == "ReturnStmt" and inner(n) and \
-          strip(inner(n)[0]).get("kind") == "CXXBoolLiteralExpr" and \
-          strip(inner(n)[0]).get("value") is True:
-        accept.append((i, "return true", n))
-      if n.get("kind") == "CXXMemberCallExpr":
-        key = ix.callee(n)[0] or ""
-        if key.startswith("Solver::RecallOrFindSolution"):
-          accept.append((i, "RecallOrFindSolution", n))
-  if len(accept) < 2:
-    raise AnalysisError("FindSolution: acceptance sites not found")
-  for i, what, n in accept:
-    ctx.check(i > gi, f"FindSolution:accept-after-guard:{what}", SC, _line(n),
-              f"`{what}` at line {_line(n)} is not preceded by the conflict "
-              "guard in the same iteration", {"stmt_index": i, "guard_index": gi})
+            "removed together in this result", {"arg": str(arg), "form": form})
+  conflict_branch = then if form == "pos" else els
+  in_branch = {id(x) for x in cxx.walk(conflict_branch)} if conflict_branch else set()
+  discards = not any(id(n) in in_branch for _, n, _ in accepts)
+  if form == "pos":
+    discards = discards and (U.leaves(then) or all(g for _, _, g in accepts))
+  ctx.check(bool(discards), f"{fname}:conflict-guard-discards", SC, _line(s),
+            "the conflicting case must abandon this removal result "
+            "(continue/break/return false) without accepting it", {"form": form})
+  if len(accepts) < 2:
+    raise AnalysisError(f"{fname}: acceptance sites not found")
+  for what, n, g in accepts:
+    ctx.check(bool(g), f"{fname}:accept-after-guard:{what}", SC, _line(n),
+              f"`{what}` at line {_line(n)} can be reached in an iteration "
+              "in which the conflict test has not excluded a conflict",
+              {"guarded": bool(g), "guard_line": _line(s)})
   # GoalsConflict itself
-  gc = ix.find("Solver::GoalsConflict")[0]
-  goals = ("var", gc.params[0].get("name"), gc.params[0]["id"])
+  gc = gcs[0]
+  goals = U.var_of(gc.params[0])
   loops = [n for n in cxx.walk(gc.body) if n.get("kind") == "CXXForRangeStmt"]
   if len(loops) != 1:
     raise AnalysisError("GoalsConflict: expected one loop over the goals")
-  lv, rng, body = _range_for(loops[0])
+  glv, rng, gbody = _range_for(loops[0])
   if uncast(term(ix, rng)) != goals:
     raise AnalysisError("GoalsConflict: loop does not range over its parameter")
-  g = ("var", lv.get("name"), lv["id"])
-  ins = [n for n in cxx.walk(body) if n.get("kind") == "CXXMemberCallExpr"
+  g = U.var_of(glv)
+  ins = [n for n in cxx.walk(gbody) if n.get("kind") == "CXXMemberCallExpr"
          and ix.callee(n)[2] in ("emplace", "insert", "try_emplace")]
   if len(ins) != 1:
     raise AnalysisError("GoalsConflict: map insertion not found")
-  keyarg = uncast(term(ix, inner(ins[0])[1]))
+  genv = U.once_bound_env(ix, gc)
+  keyarg = uncast(term(ix, inner(ins[0])[1], genv))
   ok = isinstance(keyarg, tuple) and keyarg[0] == "mcall" and \
       str(keyarg[1]).startswith("Binding::variable") and uncast(keyarg[2]) == g
   ctx.check(ok, "GoalsConflict:keyed-on-variable", SC, _line(ins[0]),
             f"the conflict map is keyed on {keyarg}; it must be goal->variable()",
             {"key": str(keyarg)})
-  # `if (!inserted) ... return true`; final `return false`
+  # `if (!<insertion took place>) ... return true`; final `return false`
+  flags = _added_flags(gc, ins[0])
+  pair_vars = {d["id"] for d in cxx.walk(gc.body) if d.get("kind") == "VarDecl"
+               and any(x is ins[0] for x in cxx.walk(d))}
+
+  def is_added(t):
+    t = uncast(t)
+    if not isinstance(t, tuple):
+      return False
+    if t[0] == "var" and t[1] in flags:
+      return True
+    if t[0] == "member" and t[1] == "second":
+      b = uncast(t[2])
+      return (isinstance(b, tuple) and b[0] == "var" and b[2] in pair_vars) or \
+          b == uncast(term(ix, ins[0]))
+    return False
   found = False
-  for n in cxx.walk(body):
+  unknown = []
+  for n in cxx.walk(gbody):
     if n.get("kind") == "IfStmt":
-      cond, then, els = _if_parts(n)
+      _, _, cond, then, els = U.if_parts(n)
       c = uncast(term(ix, cond))
-      neg = isinstance(c, tuple) and c[0] == "!" and (
-          "inserted" in str(c[1]) or "second" in str(c[1]))
-      if neg and any(x.get("kind") == "ReturnStmt" and inner(x) and
-                     strip(inner(x)[0]).get("value") is True for x in cxx.walk(then)):
+      rets = any(_ret_true(x) for x in cxx.walk(then))
+      if isinstance(c, tuple) and c[0] == "!" and is_added(c[1]) and rets:
         found = True
+      elif rets and is_added(c):
+        pass    # understood: reports a conflict when the variable was NOT seen before
+      elif rets:
+        unknown.append(str(c))
+  if not found and unknown:
+    raise AnalysisError("GoalsConflict: `return true` under a condition that "
+                        f"is not understood: {unknown}")
   tail = _stmts(gc.body)[-1]
-  tail_false = tail.get("kind") == "ReturnStmt" and inner(tail) and \
-      strip(inner(tail)[0]).get("kind") == "CXXBoolLiteralExpr" and \
-      strip(inner(tail)[0]).get("value") is False
+  tail_false = _ret_false(tail)
   ctx.check(found and tail_false, "GoalsConflict:reports-duplicate-variable", SC,
             gc.line, "GoalsConflict must return true when a variable is "
             "already in the map (insertion failed) and false otherwise",
             {"dup_returns_true": found, "tail_false": bool(tail_false)})
 
 
+def x_body(loop):
+  kids = inner(loop)
+  return kids[0] if loop.get("kind") == "DoStmt" else kids[-1]
+
+
+def _membership(ix, t, setvar):
+  """+1 if term t is true exactly when <elem> is in `setvar`, -1 if exactly
+  when it is not, None if t does not test membership in `setvar`."""
+  t = uncast(t)
+  if not isinstance(t, tuple) or not t:
+    return None
+  if t[0] == "!":
+    m = _membership(ix, t[1], setvar)
+    return -m if m else None
+  if t[0] == "mcall" and t[1] in ("count", "contains") and uncast(t[2]) == setvar:
+    return 1
+  if t[0] in ("!=", ">", "==") and len(t) == 3:
+    a, b = uncast(t[1]), uncast(t[2])
+    if isinstance(a, tuple) and a[0] == "mcall" and a[1] == "count" and \
+        uncast(a[2]) == setvar and isinstance(b, tuple) and b[:2] == ("int", 0):
+      return -1 if t[0] == "==" else 1
+  if t[0] == "opcall" and t[1] in ("operator!=", "operator==") and len(t) == 4:
+    a, b = uncast(t[2]), uncast(t[3])
+    for x, y in ((a, b), (b, a)):
+      if isinstance(x, tuple) and x[0] == "mcall" and x[1] == "find" and \
+          uncast(x[2]) == setvar and isinstance(y, tuple) and y[0] == "mcall" \
+          and y[1] == "end" and uncast(y[2]) == setvar:
+        return 1 if t[1] == "operator!=" else -1
+  return None
+
+
 @rule("R7.2", "C07", floor=5)
 def r7_2(ctx):
   """Nodes that re-bind a goal variable block the backward path."""
   ix = _ix(ctx)
-  fs = ix.find("Solver::FindSolution")[0]
-  # blocked.insert(...) inside a loop over result.new_goals, fed by variable()->nodes()
-  calls = [n for n in cxx.walk(fs.body) if n.get("kind") == "CXXMemberCallExpr"
-           and (ix.callee(n)[0] or "").startswith("internal::PathFinder::FindNodeBackwards")]
-  if len(calls) != 1:
-    raise AnalysisError("FindSolution: FindNodeBackwards call not found")
-  args = [uncast(term(ix, a)) for a in inner(calls[0])[1:]]
+  fs = _search_fn(ix)
+  state_p = _state_param(fs)
+  recursive = U.reaching(ix, fs.key)
+  # the FindNodeBackwards call, in the driver or in a helper it calls (the
+  # helper's parameters are bound to the driver's argument terms)
+  sites = []
+  for n, env, fn in U.walk_inlined(ix, fs, depth=2, skip=recursive):
+    if n.get("kind") == "CXXMemberCallExpr" and \
+        (ix.callee(n)[0] or "").startswith("internal::PathFinder::FindNodeBackwards"):
+      sites.append((n, env, fn))
+  if len(sites) != 1:
+    raise AnalysisError(f"{fs.name}: FindNodeBackwards call not found "
+                        f"({len(sites)} call sites in the driver and its helpers)")
+  call, env, host = sites[0]
+  args = [uncast(term(ix, a, env)) for a in inner(call)[1:]]
   if len(args) != 3 or args[2][0] != "var":
     raise AnalysisError(f"FindNodeBackwards arguments not understood: {args}")
   blocked = args[2]
-  start_ok = isinstance(args[0], tuple) and args[0][0] == "mcall" and \
-      "State::pos" in str(args[0][1])
-  ctx.check(start_ok, "FindSolution:search-starts-at-pos", SC, _line(calls[0]),
-            f"backward search starts at {args[0]}, not at state.pos()",
-            {"start": str(args[0])})
+  ctx.check(_is_pos_of(args[0], state_p), "FindSolution:search-starts-at-pos", SC,
+            _line(call), f"backward search starts at {args[0]}, not at state.pos()",
+            {"start": str(args[0]), "in": host.name})
   filled = False
   src_ok = False
-  for lp in [n for n in cxx.walk(fs.body) if n.get("kind") == "CXXForRangeStmt"]:
+  before = False
+  for lp in [n for n in cxx.walk(host.body) if n.get("kind") == "CXXForRangeStmt"]:
     lv, rng, body = _range_for(lp)
-    r = uncast(term(ix, rng))
+    r = uncast(term(ix, rng, env))
     if not (isinstance(r, tuple) and r[0] == "field" and r[1].endswith("RemoveResult::new_goals")):
       continue
-    g = ("var", lv.get("name"), lv["id"])
-    env = {}
-    for s in _stmts(body):
-      if s.get("kind") == "DeclStmt":
-        for v in inner(s):
-          if v.get("kind") == "VarDecl" and inner(v):
-            env[v["id"]] = term(ix, inner(v)[-1], env)
+    g = U.var_of(lv)
+    lenv = dict(env)
+    for inl in cxx.walk(body):     # `for (n : goal->variable()->nodes()) blocked.insert(n)`
+      if inl.get("kind") == "CXXForRangeStmt":
+        ilv, irng, _ = _range_for(inl)
+        lenv[ilv["id"]] = ("elem", term(ix, irng, env))
     for n in cxx.walk(body):
       if n.get("kind") == "CXXMemberCallExpr" and ix.callee(n)[2] == "insert":
-        t = term(ix, n, env)
+        t = term(ix, n, lenv)
         if uncast(t[2]) == blocked:
           filled = True
           txt = str(t[3:])
           src_ok = "Variable::nodes" in txt and "Binding::variable" in txt and \
               str(g[2]) in txt
-  ctx.check(filled and src_ok, "FindSolution:blocked-from-goal-variables", SC,
-            _line(calls[0]),
+          before = U.pos(lp) < U.pos(call) and not any(x is call for x in cxx.walk(lp))
+  ctx.check(filled and src_ok and before, "FindSolution:blocked-from-goal-variables", SC,
+            _line(call),
             "the blocked set must receive goal->variable()->nodes() for every "
-            "goal in result.new_goals", {"filled": filled, "source_ok": src_ok})
+            "goal in result.new_goals before the backward search is started",
+            {"filled": filled, "source_ok": src_ok, "before_search": before,
+             "in": host.name})
   # FindNodeBackwards forwards `blocked`
   fb = ix.find("internal::PathFinder::FindNodeBackwards")[0]
-  bp = ("var", fb.params[2].get("name"), fb.params[2]["id"])
+  bp = U.var_of(fb.params[2])
   c2 = [n for n in cxx.walk(fb.body) if n.get("kind") == "CXXMemberCallExpr"
         and (ix.callee(n)[0] or "").startswith("internal::PathFinder::FindShortestPathToNode")]
   if len(c2) != 1:
     raise AnalysisError("FindNodeBackwards: FindShortestPathToNode call not found")
-  a2 = [uncast(term(ix, a)) for a in inner(c2[0])[1:]]
-  sp = ("var", fb.params[0].get("name"), fb.params[0]["id"])
-  fp = ("var", fb.params[1].get("name"), fb.params[1]["id"])
+  fenv = U.once_bound_env(ix, fb)
+  a2 = [uncast(term(ix, a, fenv)) for a in inner(c2[0])[1:]]
+  sp = U.var_of(fb.params[0])
+  fp = U.var_of(fb.params[1])
   ctx.check(a2 == [sp, fp, bp], "FindNodeBackwards:forwards-arguments", SC, _line(c2[0]),
             f"FindShortestPathToNode is called with {a2}; expected (start, "
             "finish, blocked) unchanged", {"args": str(a2)})
   # FindShortestPathToNode: finish test, then blocked test, then expansion
   sp_fn = ix.find("internal::PathFinder::FindShortestPathToNode")[0]
-  bl = ("var", sp_fn.params[2].get("name"), sp_fn.params[2]["id"])
-  wl = [n for n in cxx.walk(sp_fn.body) if n.get("kind") == "WhileStmt"]
+  bl = U.var_of(sp_fn.params[2])
+  fin_id = str(sp_fn.params[1]["id"])
+  wl = [n for n in cxx.walk(sp_fn.body) if n.get("kind") in ("WhileStmt", "ForStmt", "DoStmt")
+        and any(x.get("kind") == "CXXMemberCallExpr" and
+                (ix.callee(x)[0] or "").startswith("CFGNode::incoming")
+                for x in cxx.walk(x_body(n)))]
   if not wl:
     raise AnalysisError("FindShortestPathToNode: search loop not found")
-  body = _stmts(inner(wl[0])[-1])
-  idx_finish = idx_block = idx_expand = None
+  body = _stmts(x_body(wl[0]))
+  senv = U.once_bound_env(ix, sp_fn)
+  idx_finish = idx_block = None
+  wrap = None
+  expands = []
   for i, s in enumerate(body):
+    inside_wrap = set()
     if s.get("kind") == "IfStmt":
-      cond, then, els = _if_parts(s)
-      c = str(uncast(term(ix, cond)))
-      if "==" in c and str(sp_fn.params[1]["id"]) in c and \
-          any(x.get("kind") == "BreakStmt" for x in cxx.walk(then)):
+      _, _, cond, then, els = U.if_parts(s)
+      ct = uncast(term(ix, cond, senv))
+      c = str(ct)
+      if "==" in c and fin_id in c and str(bl[2]) not in c and U.leaves(then) and \
+          not any(x.get("kind") == "ContinueStmt" for x in cxx.walk(then)):
         idx_finish = i if idx_finish is None else idx_finish
-      if str(bl[2]) in c and "'count'" in c or (str(bl[2]) in c and "find" in c):
-        if _leaves_iteration(then):
+      if str(bl[2]) in c:
+        pos_m = [_membership(ix, d, bl) for d in U.flatten(ct, "||")]
+        neg_m = [_membership(ix, d, bl) for d in U.flatten(ct, "&&")]
+        if 1 in pos_m and U.leaves(then):
           idx_block = i if idx_block is None else idx_block
+        elif -1 in neg_m and els is None:
+          wrap = (i, then)
+          idx_block = i if idx_block is None else idx_block
+          inside_wrap = {id(x) for x in cxx.walk(then)}
+        else:
+          raise AnalysisError("FindShortestPathToNode: test on the blocked set "
+                              f"not understood: {ct}")
     for n in cxx.walk(s):
       if n.get("kind") == "CXXMemberCallExpr" and \
-          (ix.callee(n)[0] or "").startswith("CFGNode::incoming") and idx_expand is None \
-          and s.get("kind") != "IfStmt":
-        idx_expand = i
-  if idx_finish is None or idx_expand is None:
+          (ix.callee(n)[0] or "").startswith("CFGNode::incoming"):
+        expands.append((i, id(n) in inside_wrap))
+  if idx_finish is None or not expands:
     raise AnalysisError("FindShortestPathToNode: loop shape not understood")
-  ctx.check(idx_block is not None and idx_block < idx_expand,
+  idx_expand = min(i for i, _ in expands)
+  if idx_block is None and any(
+      str(bl[2]) in str(term(ix, n)) for s in body for n in cxx.walk(s)
+      if n.get("kind") in ("CXXMemberCallExpr", "CXXOperatorCallExpr", "CallExpr")):
+    raise AnalysisError("FindShortestPathToNode: the blocked set is used in the "
+                        "search loop in a way that is not understood")
+  if wrap is not None:
+    ok_block = all(inw for _, inw in expands)
+  else:
+    ok_block = idx_block is not None and idx_block < idx_expand
+  ctx.check(ok_block,
             "FindShortestPathToNode:blocked-before-expansion", SC, sp_fn.line,
             "a blocked node must be skipped (continue) before its incoming "
-            "edges are expanded", {"blocked_idx": idx_block, "expand_idx": idx_expand})
+            "edges are expanded", {"blocked_idx": idx_block, "expand_idx": idx_expand,
+                                   "form": "wrap" if wrap else "guard-clause"})
   ctx.check(idx_block is None or idx_finish < idx_block,
             "FindShortestPathToNode:finish-before-blocked", SC, sp_fn.line,
             "the finish test must precede the blocked test: the finish node "
@@ -302,12 +563,14 @@ def r7_2(ctx):
 def r7_3(ctx):
   """A node condition becomes a goal before goals are removed at the node."""
   ix = _ix(ctx)
-  fs = ix.find("Solver::FindSolution")[0]
+  fs = _search_fn(ix)
+  state_p = _state_param(fs)
+  env = U.once_bound_env(ix, fs)
   calls = [n for n in cxx.walk(fs.body) if n.get("kind") == "CallExpr"
            and "remove_finished_goals" in (ix.callee(n)[0] or "")]
   if len(calls) != 1:
     raise AnalysisError("FindSolution: remove_finished_goals call not found")
-  a = [uncast(term(ix, x)) for x in inner(calls[0])[1:]]
+  a = [uncast(term(ix, x, env)) for x in inner(calls[0])[1:]]
   if len(a) == 2 and a[1][0] == "mcall" and "State::goals" in str(a[1][1]):
     ctx.bad("FindSolution:condition-absorbed", SC, _line(calls[0]),
             "remove_finished_goals receives state.goals() itself, so a node "
@@ -316,49 +579,55 @@ def r7_3(ctx):
   if len(a) != 2 or a[1][0] != "var":
     raise AnalysisError(f"remove_finished_goals arguments not understood: {a}")
   goals = a[1]
-  ctx.check("State::pos" in str(a[0]), "FindSolution:removal-at-pos", SC, _line(calls[0]),
+  ctx.check(_is_pos_of(a[0], state_p), "FindSolution:removal-at-pos", SC, _line(calls[0]),
             f"goals are removed at {a[0]}, not at state.pos()", {"pos": str(a[0])})
 
-  def transfer(ev, st):
-    if ev.kind == "call" and (ev.extra or {}).get("name") == "insert":
-      t = term(ix, ev.node)
-      if uncast(t[2]) == goals and "CFGNode::condition" in str(_resolve(t[3:])):
-        return st | {"absorbed"}
-    if ev.kind == "call" and "remove_finished_goals" in ev.what:
-      return st | ({"removed_after"} if "absorbed" in st or "nocond" in st else {"removed_early"})
-    return st
+  def is_condition(t):
+    """t == <state>.pos()->condition()"""
+    t = uncast(t)
+    return isinstance(t, tuple) and t[0] == "mcall" and len(t) == 3 and \
+        "CFGNode::condition" in str(t[1]) and _is_pos_of(t[2], state_p)
 
-  env = {}
-  for n in cxx.walk(fs.body):
-    if n.get("kind") == "VarDecl" and inner(n) and n.get("name") == "condition":
-      env[n["id"]] = term(ix, inner(n)[-1])
-
-  def _resolve(ts):
-    out = []
-    for t in ts:
-      t = uncast(t)
-      if isinstance(t, tuple) and t[0] == "var" and t[2] in env:
-        t = env[t[2]]
-      out.append(t)
-    return out
+  def tests_condition(c):
+    c = uncast(c)
+    if is_condition(c):
+      return True
+    if isinstance(c, tuple) and c[0] == "!=" and len(c) == 3:
+      x, y = uncast(c[1]), uncast(c[2])
+      return (is_condition(x) and y == ("nullptr",)) or (is_condition(y) and x == ("nullptr",))
+    return False
   # structural: an IfStmt on state.pos()->condition() whose then-branch inserts
   # the condition into `goals`, located before the removal call in the same block
   top = _stmts(fs.body)
   idx_rm = [i for i, s in enumerate(top) if any(n is calls[0] for n in cxx.walk(s))]
   idx_if = None
+  unknown = []
   for i, s in enumerate(top):
-    if s.get("kind") == "IfStmt":
-      cond, then, els = _if_parts(s)
-      c = uncast(term(ix, cond))
-      if "CFGNode::condition" in str(c) and "State::pos" in str(c) and not str(c).startswith("('!'"):
-        ins = False
-        for n in cxx.walk(then):
-          if n.get("kind") == "CXXMemberCallExpr" and ix.callee(n)[2] == "insert":
-            t = term(ix, n)
-            if uncast(t[2]) == goals and "CFGNode::condition" in str(_resolve(t[3:])):
-              ins = True
-        if ins:
-          idx_if = i
+    if s.get("kind") != "IfStmt":
+      continue
+    _, _, cond, then, els = U.if_parts(s)
+    c = uncast(term(ix, cond, env))
+    ins = False
+    for n in cxx.walk(then):
+      if n.get("kind") == "CXXMemberCallExpr" and ix.callee(n)[2] == "insert":
+        t = term(ix, n, env)
+        if uncast(t[2]) == goals and len(t) == 4 and is_condition(t[3]):
+          ins = True
+    negated = isinstance(c, tuple) and (
+        (c[0] == "!" and tests_condition(c[1])) or
+        (c[0] == "==" and len(c) == 3 and ("nullptr",) in (uncast(c[1]), uncast(c[2]))
+         and (is_condition(c[1]) or is_condition(c[2]))))
+    if tests_condition(c) and ins:
+      idx_if = i
+    elif negated and els is None:
+      pass    # understood: the insertion happens only when there is NO condition
+    elif "CFGNode::condition" in str(c) and any(
+        n.get("kind") == "CXXMemberCallExpr" and ix.callee(n)[2] in ("insert", "emplace")
+        and uncast(term(ix, n, env)[2]) == goals for n in cxx.walk(s)):
+      unknown.append(str(c))
+  if idx_if is None and unknown:
+    raise AnalysisError("FindSolution: the goal set is extended under a test of "
+                        f"the node condition that is not understood: {unknown}")
   ok = bool(idx_rm) and idx_if is not None and idx_if < idx_rm[0]
   ctx.check(ok, "FindSolution:condition-absorbed", SC, fs.line,
             "when state.pos() has a condition it must be inserted into the "
@@ -366,64 +635,113 @@ def r7_3(ctx):
             {"if_index": idx_if, "remove_index": idx_rm})
 
 
+def _writes_memo(ix, f):
+  return any(ev.kind == "write" and ev.what == "Solver::solved_states_"
+             for ev in cxx.events(ix, f.body, {}))
+
+
+def _is_cached_value(t):
+  """<iterator from solved_states_.find(..)>->second"""
+  t = uncast(t)
+  if not (isinstance(t, tuple) and t[0] == "member" and t[1] == "second"):
+    return False
+  s = str(t[2])
+  return "Solver::solved_states_" in s and "'find'" in s
+
+
 @rule("R7.4", "C07", floor=2)
 def r7_4(ctx):
   """The provisional memo entry is replaced by the real result on every path."""
   ix = _ix(ctx)
-  fn = ix.find("Solver::RecallOrFindSolution")[0]
-  result_vars = set()
-  for n in cxx.walk(fn.body):
-    if n.get("kind") == "VarDecl" and inner(n):
-      t = term(ix, inner(n)[-1])
-      if "Solver::FindSolution" in str(t):
-        result_vars.add(n["id"])
-  if not result_vars:
-    raise AnalysisError("RecallOrFindSolution: FindSolution result not bound to a local")
+  fs = _search_fn(ix)
+  cands = [f for f in ix.by_key.values()
+           if f.file == SC and f.cls == "Solver" and f.body is not None
+           and f.kind == "CXXMethodDecl"]
+  writers = sorted([f for f in cands if _writes_memo(ix, f)], key=lambda f: f.key)
+  if not writers:
+    raise AnalysisError("no Solver method writes solved_states_: the memo "
+                        "function (RecallOrFindSolution) was not found")
+  wkeys = {f.key for f in writers}
+  for fn in writers:
+    env = U.once_bound_env(ix, fn)
+    result_vars = set()
+    for n in cxx.walk(fn.body):
+      if n.get("kind") == "VarDecl" and inner(n) and n.get("init"):
+        t = uncast(term(ix, inner(n)[-1]))
+        if U.call_parts(t)[0] == fs.key:
+          result_vars.add(n["id"])
+    if not result_vars:
+      raise AnalysisError(f"{fn.name}: {fs.name} result not bound to a local")
 
-  def classify(ev):
-    if ev.kind != "write" or ev.what != "Solver::solved_states_":
-      return None
-    t = term(ix, ev.node)
-    if isinstance(t, tuple) and t[0] == "=":
-      rhs = uncast(t[2])
-      if rhs == ("bool", True):
-        return "prov"
-      if isinstance(rhs, tuple) and rhs[0] == "var" and rhs[2] in result_vars:
-        return "final"
-      return "other"
-    return None   # operator[] access itself
+    def is_result(t, result_vars=result_vars):
+      t = uncast(t)
+      return isinstance(t, tuple) and t[0] == "var" and t[2] in result_vars
 
-  kinds = []
+    def classify(ev):
+      if ev.kind != "write" or ev.what != "Solver::solved_states_":
+        return None
+      t = term(ix, ev.node)
+      if isinstance(t, tuple) and t[0] == "=":
+        rhs = uncast(t[2])
+        if rhs == ("bool", True):
+          return "prov"
+        if is_result(rhs):
+          return "final"
+        return "other"
+      if (ev.extra or {}).get("how") == "operator[]":
+        return None   # operator[] access itself
+      return "other"  # insert / emplace / erase ...: not understood as memo write
 
-  def transfer(ev, st):
-    c = classify(ev)
-    if c:
-      kinds.append(c)
-    if c == "prov":
-      return (st - {"final"}) | {"prov"}
-    if c == "final":
-      return st | {"final"}
-    if c == "other":
-      return st | {"other"}
-    return st
-  fl = cxx.CxxFlow(ix, fn, transfer)
-  if "prov" not in kinds:
-    ctx.ok("RecallOrFindSolution:no-provisional-entry", SC, fn.line,
-           {"note": "no provisional entry is written"})
-  else:
-    bad = [(k, _line(n)) for k, n, s in fl.exits
-           if s is not None and "prov" in s and "final" not in s]
-    ctx.check(not bad, "RecallOrFindSolution:memo-finalised", SC, fn.line,
-              f"exits {bad} leave the provisional `true` memo entry in place",
-              {"exits": [(k, sorted(s or [])) for k, n, s in fl.exits]})
-  ctx.check("other" not in kinds, "RecallOrFindSolution:memo-values", SC, fn.line,
-            "solved_states_ may only receive the provisional `true` or the "
-            "result of FindSolution", {"writes": kinds})
-  # the function returns the cached value or that same result
-  rets = [uncast(term(ix, inner(n)[0])) for k, n, s in fl.exits if k == "return" and inner(n)]
-  ok = all((r[0] == "var" and r[2] in result_vars) or "second" in str(r) for r in rets)
-  ctx.check(ok, "RecallOrFindSolution:returns-memo-or-result", SC, fn.line,
-            f"returns {rets}", {"returns": [str(r) for r in rets]})
+    kinds = []
+
+    def transfer(ev, st, classify=classify, kinds=kinds):
+      c = classify(ev)
+      if c:
+        kinds.append(c)
+      if c == "prov":
+        return (st - {"final"}) | {"prov"}
+      if c == "final":
+        return st | {"final"}
+      if c == "other":
+        return st | {"other"}
+      return st
+    fl = cxx.CxxFlow(ix, fn, transfer)
+    if "prov" not in kinds:
+      ctx.ok(f"{fn.name}:no-provisional-entry", SC, fn.line,
+             {"note": "no provisional entry is written"})
+    else:
+      bad = [(k, _line(n)) for k, n, s in fl.exits
+             if s is not None and "prov" in s and "final" not in s]
+      ctx.check(not bad, f"{fn.name}:memo-finalised", SC, fn.line,
+                f"exits {bad} leave the provisional `true` memo entry in place",
+                {"exits": [(k, sorted(s or [])) for k, n, s in fl.exits]})
+    ctx.check("other" not in kinds, f"{fn.name}:memo-values", SC, fn.line,
+              "solved_states_ may only receive the provisional `true` or the "
+              f"result of {fs.name}", {"writes": kinds})
+    # the function returns the cached value or that same result
+    rets = [(uncast(term(ix, U.return_value(n))), uncast(term(ix, U.return_value(n), env)))
+            for k, n, s in fl.exits if k == "return" and U.return_value(n) is not None]
+    ok = all(is_result(raw) or _is_cached_value(res) or U.call_parts(raw)[0] in wkeys
+             for raw, res in rets)
+    ctx.check(ok, f"{fn.name}:returns-memo-or-result", SC, fn.line,
+              f"returns {[r for r, _ in rets]}", {"returns": [str(r) for _, r in rets]})
+  # lookup wrappers (cache hit answered here, miss delegated to a writer)
+  for fn in sorted(cands, key=lambda f: f.key):
+    if fn.key in wkeys or fn.key == fs.key or not fn.sig.startswith("bool"):
+      continue
+    delegates = [n for n in cxx.walk(fn.body) if n.get("kind") == "CXXMemberCallExpr"
+                 and (ix.callee(n)[0] or "") in wkeys]
+    reads = any(ev.what == "Solver::solved_states_" for ev in cxx.events(ix, fn.body, {}))
+    if not (delegates and reads):
+      continue
+    env = U.once_bound_env(ix, fn)
+    rets = [uncast(term(ix, U.return_value(n), env)) for n in cxx.walk(fn.body)
+            if n.get("kind") == "ReturnStmt" and U.return_value(n) is not None]
+    ok = bool(rets) and all(_is_cached_value(r) or U.call_parts(r)[0] in wkeys for r in rets)
+    ctx.check(ok, f"{fn.name}:returns-memo-or-result", SC, fn.line,
+              f"the memo lookup {fn.name} returns {rets}; it must return the "
+              "cached value or the result of the memoising search",
+              {"returns": [str(r) for r in rets]})
 
 
 @rule("R7.5", "C07", floor=3)
@@ -431,8 +749,9 @@ def r7_5(ctx):
   """Multi-binding queries require every binding to be solvable alone."""
   ix = _ix(ctx)
   sv = ix.find("Solver::Solve_")[0]
-  attrs = ("var", sv.params[0].get("name"), sv.params[0]["id"])
-  node = ("var", sv.params[1].get("name"), sv.params[1]["id"])
+  attrs = U.var_of(sv.params[0])
+  node = U.var_of(sv.params[1])
+  recursive = U.reaching(ix, _search_fn(ix).key)
   top = _stmts(sv.body)
   pre = None
   for i, s in enumerate(top):
@@ -454,19 +773,18 @@ def r7_5(ctx):
         isinstance(uncast(lhs[2]), tuple) and uncast(lhs[2])[:2] == ("int", 1)
     call = uncast(uncast(c[2])[1]) if shape else None
     args_ok = shape and [uncast(x) for x in call[3:]] == [attrs, node]
-    rets_false = any(x.get("kind") == "ReturnStmt" and inner(x) and
-                     strip(inner(x)[0]).get("value") is False for x in cxx.walk(then))
+    rets_false = any(_ret_false(x) for x in cxx.walk(then))
     ctx.check(bool(shape and size_ok and args_ok and rets_false), "Solve_:precheck", SC, _line(s),
               f"the precheck must be `if (attrs.size() > 1 && "
               f"!CanHaveSolution(attrs, node)) return false`; got {c}",
               {"cond": str(c)})
-    later = [j for j, st in enumerate(top) for n in cxx.walk(st)
+    later = [j for j, st in enumerate(top) if j != i for n in cxx.walk(st)
              if n.get("kind") == "CXXMemberCallExpr" and
-             (ix.callee(n)[0] or "").startswith("Solver::RecallOrFindSolution")]
+             (ix.callee(n)[0] or "") in recursive]
     ctx.check(bool(later) and min(later) > i, "Solve_:precheck-first", SC, _line(s),
               "the precheck must precede the search", {"search_at": later, "precheck_at": i})
   ch = ix.find("Solver::CanHaveSolution")[0]
-  cattrs = ("var", ch.params[0].get("name"), ch.params[0]["id"])
+  cattrs = U.var_of(ch.params[0])
   loops = [n for n in cxx.walk(ch.body) if n.get("kind") == "CXXForRangeStmt"]
   if len(loops) != 1:
     raise AnalysisError("CanHaveSolution: expected one loop")
@@ -479,13 +797,10 @@ def r7_5(ctx):
       cond, then, els = _if_parts(n)
       c = uncast(term(ix, cond))
       if isinstance(c, tuple) and c[0] == "!" and "Solver::Solve_" in str(c[1]):
-        fails = any(x.get("kind") == "ReturnStmt" and inner(x) and
-                    strip(inner(x)[0]).get("value") is False for x in cxx.walk(then))
+        fails = any(_ret_false(x) for x in cxx.walk(then))
   tail = _stmts(ch.body)[-1]
-  tail_true = tail.get("kind") == "ReturnStmt" and inner(tail) and \
-      strip(inner(tail)[0]).get("value") is True
-  early_true = any(x.get("kind") == "ReturnStmt" and inner(x) and
-                   strip(inner(x)[0]).get("value") is True for x in cxx.walk(body))
+  tail_true = _ret_true(tail)
+  early_true = any(_ret_true(x) for x in cxx.walk(body))
   ctx.check(over_all and fails and tail_true and not early_true,
             "CanHaveSolution:every-goal-alone", SC, ch.line,
             "CanHaveSolution must loop over every start binding, return false "
@@ -791,6 +1106,118 @@ def _tg(n):
   return f"pytype/typegraph/{n}"
 
 
+
+# -- texts used by the refactored-shape variants ---------------------------------
+_GUARD = ("    if (GoalsConflict(result.removed_goals)) {\n"
+          "      LOG(INFO) << indent << \"conflicting removed goals!\";\n"
+          "      continue;  // We bulk-removed goals that are internally conflicting.\n"
+          "    }\n")
+_DONE = ("    if (result.new_goals.empty()) {\n"
+         "      LOG(INFO) << indent << \"done!\";\n"
+         "      return true;\n"
+         "    }\n")
+_LOOP_TAIL = "    current_depth -= 1;\n  }\n\n  return false;\n}"
+_BFS_TESTS = ("    if (node->id() == finish->id()) {\n      found = true;\n      break;\n    }\n"
+              "    if (seen.count(node) || blocked.count(node))\n      continue;\n"
+              "    seen.insert(node);\n")
+_BFS_EXPAND = ("    if (seen.count(node) || blocked.count(node))\n      continue;\n"
+               "    seen.insert(node);\n"
+               "    for (auto n : node->incoming()) {\n      previous.emplace(n, node);\n    }\n"
+               "    queue.insert(queue.end(), node->incoming().begin(), node->incoming().end());\n")
+_POSITIONS_BLOCK_HEAD = ("    CFGNodeSet blocked;\n"
+                         "    for (const auto* goal : result.new_goals) {\n"
+                         "      const auto vnodes = goal->variable()->nodes();\n"
+                         "      blocked.insert(vnodes.begin(), vnodes.end());\n"
+                         "    }\n"
+                         "    CFGNodeSet new_positions;\n")
+_POSITIONS_BLOCK_TAIL = ("    for (const CFGNode* finish_node : unique_finish_nodes) {\n"
+                         "      internal::QueryResult origin_path =\n"
+                         "          path_finder_.FindNodeBackwards(state.pos(), finish_node, blocked);\n"
+                         "      if (origin_path.path_exists) {\n"
+                         "        const CFGNode* where = finish_node;\n"
+                         "        // Check if we found conditions on the way.\n"
+                         "        for (const CFGNode* node : *origin_path.path) {\n"
+                         "          if (node != state.pos()) {\n"
+                         "            where = node;\n"
+                         "            break;\n"
+                         "          }\n"
+                         "        }\n"
+                         "        new_positions.insert(where);\n"
+                         "      }\n"
+                         "    }\n")
+_H_RECALL = ("  bool RecallOrFindSolution(const internal::State& state,\n"
+             "                            internal::StateSet& seen_state, int current_depth);\n")
+
+
+def _helper_blocked(fill, callarg="result.new_goals"):
+  """FindSolution's blocked-set computation moved into Solver::BlockedFor()."""
+  return [
+      (_tg("solver.h"), _H_RECALL,
+       _H_RECALL + "  CFGNodeSet BlockedFor(const internal::GoalSet& new_goals);\n"),
+      (_tg("solver.cc"), "bool Solver::FindSolution(const internal::State& state,",
+       "CFGNodeSet Solver::BlockedFor(const internal::GoalSet& new_goals) {\n"
+       "  CFGNodeSet blocked;\n" + fill + "  return blocked;\n}\n\n"
+       "bool Solver::FindSolution(const internal::State& state,"),
+      (_tg("solver.cc"), _POSITIONS_BLOCK_HEAD,
+       f"    const CFGNodeSet blocked = BlockedFor({callarg});\n    CFGNodeSet new_positions;\n"),
+  ]
+
+
+def _helper_positions(fill, callargs="state.pos(), result.new_goals", start="pos"):
+  """FindSolution's blocked set + backward search moved into FindNewPositions()."""
+  return [
+      (_tg("solver.h"), _H_RECALL,
+       _H_RECALL + "  CFGNodeSet FindNewPositions(const CFGNode* pos,\n"
+       "                              const internal::GoalSet& new_goals);\n"),
+      (_tg("solver.cc"), "bool Solver::FindSolution(const internal::State& state,",
+       "CFGNodeSet Solver::FindNewPositions(const CFGNode* pos,\n"
+       "                                    const internal::GoalSet& new_goals) {\n"
+       "  CFGNodeSet blocked;\n" + fill +
+       "  CFGNodeSet new_positions;\n"
+       "  for (const Binding* goal : new_goals) {\n"
+       "    for (const auto& origin : goal->origins()) {\n"
+       "      internal::QueryResult origin_path =\n"
+       f"          path_finder_.FindNodeBackwards({start}, origin->where, blocked);\n"
+       "      if (!origin_path.path_exists) {\n        continue;\n      }\n"
+       "      const CFGNode* where = origin->where;\n"
+       "      for (const CFGNode* node : *origin_path.path) {\n"
+       "        if (node != pos) {\n          where = node;\n          break;\n        }\n      }\n"
+       "      new_positions.insert(where);\n"
+       "    }\n  }\n  return new_positions;\n}\n\n"
+       "bool Solver::FindSolution(const internal::State& state,"),
+      (_tg("solver.cc"), _POSITIONS_BLOCK_HEAD, "    CFGNodeSet blocked_unused;\n"),
+      (_tg("solver.cc"), _POSITIONS_BLOCK_TAIL,
+       f"    const CFGNodeSet new_positions = FindNewPositions({callargs});\n"),
+  ]
+
+
+_FILL = ("  for (const auto* goal : new_goals) {\n"
+         "    const auto vnodes = goal->variable()->nodes();\n"
+         "    blocked.insert(vnodes.begin(), vnodes.end());\n"
+         "  }\n")
+_FILL_NESTED = ("  for (const auto* goal : new_goals) {\n"
+                "    for (const CFGNode* n : goal->variable()->nodes()) {\n"
+                "      blocked.insert(n);\n"
+                "    }\n"
+                "  }\n")
+
+
+def _split_memo(final="  solved_states_[state] = result;\n"):
+  """RecallOrFindSolution split into lookup + FindAndMemoizeSolution()."""
+  return [
+      (_tg("solver.h"), _H_RECALL,
+       _H_RECALL + "  bool FindAndMemoizeSolution(const internal::State& state,\n"
+       "                              internal::StateSet& seen_state, int current_depth);\n"),
+      (_tg("solver.cc"), "  } else {\n    state_cache_misses_ += 1;\n  }\n",
+       "  }\n  state_cache_misses_ += 1;\n"
+       "  return FindAndMemoizeSolution(state, seen_states, current_depth);\n}\n\n"
+       "bool Solver::FindAndMemoizeSolution(\n"
+       "    const internal::State& state, internal::StateSet& seen_states,\n"
+       "    int current_depth) {\n"),
+      (_tg("solver.cc"), "  solved_states_[state] = result;\n", final),
+  ]
+
+
 VARIANTS = [
     {"name": "conflict-guard-removed", "rule": "R7.1", "file": _tg("solver.cc"), "expect": "fire",
      "old": "    if (GoalsConflict(result.removed_goals)) {\n      LOG(INFO) << indent << \"conflicting removed goals!\";\n      continue;  // We bulk-removed goals that are internally conflicting.\n    }\n",
@@ -851,4 +1278,119 @@ VARIANTS = [
     {"name": "twin-undo-guarded-by-second", "rule": "R7.6", "file": _tg("solver.cc"), "expect": "silent",
      "old": "          auto [it, added] = state.goals_to_remove.insert(next_goal);\n          if (added) {",
      "new": "          auto res = state.goals_to_remove.insert(next_goal);\n          if (res.second) {"},
+    # -- refactored shapes: must-silent twins and the same defects in the new shape
+    {"name": "twin-benign-C07-r3-driver-decomposed", "rule": "R7.1",
+     "patch": "benign/C07-r3/patch.diff", "expect": "silent"},
+    {"name": "twin-benign-C07-r2-search-restructured", "rule": "R7.2",
+     "patch": "benign/C07-r2/patch.diff", "expect": "silent"},
+    {"name": "twin-benign-C08-r2-memo-split", "rule": "R7.4",
+     "patch": "benign/C08-r2/patch.diff", "expect": "silent"},
+    {"name": "twin-conflict-flag-hoisted", "rule": "R7.1", "file": _tg("solver.cc"), "expect": "silent",
+     "old": "    if (GoalsConflict(result.removed_goals)) {",
+     "new": "    const bool conflict = GoalsConflict(result.removed_goals);\n    if (conflict) {"},
+    {"name": "conflict-flag-hoisted-on-new-goals", "rule": "R7.1", "file": _tg("solver.cc"), "expect": "fire",
+     "old": "    if (GoalsConflict(result.removed_goals)) {",
+     "new": "    const bool conflict = GoalsConflict(result.new_goals);\n    if (conflict) {"},
+    {"name": "twin-conflict-guard-wraps-rest", "rule": "R7.1", "expect": "silent",
+     "edits": [(_tg("solver.cc"), _GUARD, "    if (!GoalsConflict(result.removed_goals)) {\n"),
+               (_tg("solver.cc"), _LOOP_TAIL,
+                "    } else {\n      LOG(INFO) << indent << \"conflicting removed goals!\";\n"
+                "      continue;\n    }\n" + _LOOP_TAIL)]},
+    {"name": "twin-conflict-guard-if-else", "rule": "R7.1", "expect": "silent",
+     "edits": [(_tg("solver.cc"), _GUARD + _DONE,
+                _GUARD[:-len("    }\n")] + "    } else {\n" + _DONE),
+               (_tg("solver.cc"), _LOOP_TAIL, "    }\n" + _LOOP_TAIL)]},
+    {"name": "conflict-wrap-covers-done-only", "rule": "R7.1", "file": _tg("solver.cc"), "expect": "fire",
+     "old": _GUARD + _DONE,
+     "new": "    if (!GoalsConflict(result.removed_goals) && result.new_goals.empty()) {\n"
+            "      LOG(INFO) << indent << \"done!\";\n      return true;\n    }\n"},
+    {"name": "conflict-guard-only-logs", "rule": "R7.1", "file": _tg("solver.cc"), "expect": "fire",
+     "old": "      continue;  // We bulk-removed goals that are internally conflicting.\n", "new": ""},
+    {"name": "conflict-test-and-ed-with-other", "rule": "R7.1", "file": _tg("solver.cc"), "expect": "error",
+     "old": "    if (GoalsConflict(result.removed_goals)) {",
+     "new": "    if (GoalsConflict(result.removed_goals) && current_depth > 3) {"},
+    {"name": "twin-conflict-flag-renamed", "rule": "R7.1", "expect": "silent",
+     "edits": [(_tg("solver.cc"), "const auto& [it, inserted] = variables.emplace(goal->variable(), goal);",
+                "const auto& [it, is_new] = variables.emplace(goal->variable(), goal);"),
+               (_tg("solver.cc"), "    if (!inserted) {", "    if (!is_new) {")]},
+    {"name": "conflict-reported-when-inserted", "rule": "R7.1", "file": _tg("solver.cc"), "expect": "fire",
+     "old": "    if (!inserted) {", "new": "    if (inserted) {"},
+    {"name": "bfs-insert-second-blocked-dropped", "rule": "R7.2", "file": _tg("solver.cc"), "expect": "fire",
+     "old": "    if (seen.count(node) || blocked.count(node))\n      continue;\n    seen.insert(node);\n",
+     "new": "    if (!seen.insert(node).second)\n      continue;\n"},
+    {"name": "bfs-insert-second-blocked-before-finish", "rule": "R7.2", "file": _tg("solver.cc"), "expect": "fire",
+     "old": _BFS_TESTS,
+     "new": "    if (blocked.count(node) || !seen.insert(node).second)\n      continue;\n"
+            "    if (node->id() == finish->id()) {\n      found = true;\n      break;\n    }\n"},
+    {"name": "twin-bfs-blocked-test-wraps-expansion", "rule": "R7.2", "file": _tg("solver.cc"), "expect": "silent",
+     "old": _BFS_EXPAND,
+     "new": "    if (!seen.count(node) && !blocked.count(node)) {\n      seen.insert(node);\n"
+            "      for (auto n : node->incoming()) {\n        previous.emplace(n, node);\n      }\n"
+            "      queue.insert(queue.end(), node->incoming().begin(), node->incoming().end());\n    }\n"},
+    {"name": "bfs-wrap-without-blocked", "rule": "R7.2", "file": _tg("solver.cc"), "expect": "fire",
+     "old": _BFS_EXPAND,
+     "new": "    if (!seen.count(node)) {\n      seen.insert(node);\n"
+            "      for (auto n : node->incoming()) {\n        previous.emplace(n, node);\n      }\n"
+            "      queue.insert(queue.end(), node->incoming().begin(), node->incoming().end());\n    }\n"},
+    {"name": "bfs-wrap-expansion-also-outside", "rule": "R7.2", "file": _tg("solver.cc"), "expect": "fire",
+     "old": _BFS_EXPAND,
+     "new": "    if (!seen.count(node) && !blocked.count(node)) {\n      seen.insert(node);\n"
+            "      for (auto n : node->incoming()) {\n        previous.emplace(n, node);\n      }\n    }\n"
+            "    queue.insert(queue.end(), node->incoming().begin(), node->incoming().end());\n"},
+    {"name": "bfs-blocked-test-xor", "rule": "R7.2", "file": _tg("solver.cc"), "expect": "error",
+     "old": "    if (seen.count(node) || blocked.count(node))", "new": "    if (seen.count(node) != blocked.count(node))"},
+    {"name": "twin-blocked-computed-in-helper", "rule": "R7.2", "expect": "silent",
+     "edits": _helper_positions(_FILL)},
+    {"name": "twin-blocked-filled-by-nested-loop-in-helper", "rule": "R7.2", "expect": "silent",
+     "edits": _helper_positions(_FILL_NESTED)},
+    {"name": "helper-blocked-not-filled", "rule": "R7.2", "expect": "fire",
+     "edits": _helper_positions("")},
+    {"name": "helper-blocked-from-removed-goals", "rule": "R7.2", "expect": "fire",
+     "edits": _helper_positions(_FILL, callargs="state.pos(), result.removed_goals")},
+    {"name": "helper-search-starts-at-origin", "rule": "R7.2", "expect": "fire",
+     "edits": _helper_positions(_FILL, start="origin->where")},
+    {"name": "helper-called-with-other-position", "rule": "R7.2", "expect": "fire",
+     "edits": _helper_positions(_FILL, callargs="*new_positions_seed.begin(), result.new_goals")
+     + [(_tg("solver.cc"), "    CFGNodeSet blocked_unused;\n",
+         "    CFGNodeSet new_positions_seed;\n    new_positions_seed.insert(state.pos());\n")]},
+    {"name": "blocked-filled-after-search", "rule": "R7.2", "expect": "fire",
+     "edits": [(_tg("solver.cc"), _POSITIONS_BLOCK_HEAD, "    CFGNodeSet blocked;\n    CFGNodeSet new_positions;\n"),
+               (_tg("solver.cc"), _POSITIONS_BLOCK_TAIL,
+                _POSITIONS_BLOCK_TAIL + "    for (const auto* goal : result.new_goals) {\n"
+                "      const auto vnodes = goal->variable()->nodes();\n"
+                "      blocked.insert(vnodes.begin(), vnodes.end());\n    }\n")]},
+    {"name": "twin-pos-hoisted", "rule": "R7.3", "file": _tg("solver.cc"), "expect": "silent",
+     "old": "  auto results = internal::remove_finished_goals(state.pos(), goals);",
+     "new": "  const CFGNode* pos = state.pos();\n  auto results = internal::remove_finished_goals(pos, goals);"},
+    {"name": "pos-hoisted-but-conditional", "rule": "R7.3", "file": _tg("solver.cc"), "expect": "fire",
+     "old": "  auto results = internal::remove_finished_goals(state.pos(), goals);",
+     "new": "  const CFGNode* pos = seen_states.empty() ? state.pos() : nullptr;\n"
+            "  auto results = internal::remove_finished_goals(pos, goals);"},
+    {"name": "pos-local-reassigned", "rule": "R7.3", "file": _tg("solver.cc"), "expect": "fire",
+     "old": "  auto results = internal::remove_finished_goals(state.pos(), goals);",
+     "new": "  const CFGNode* pos = state.pos();\n  if (!seen_states.empty()) pos = nullptr;\n"
+            "  auto results = internal::remove_finished_goals(pos, goals);"},
+    {"name": "twin-condition-declared-in-if", "rule": "R7.3", "file": _tg("solver.cc"), "expect": "silent",
+     "old": "  if (state.pos()->condition()) {\n    const auto* condition = state.pos()->condition();\n",
+     "new": "  if (const auto* condition = state.pos()->condition()) {\n"},
+    {"name": "condition-declared-in-if-not-absorbed", "rule": "R7.3", "file": _tg("solver.cc"), "expect": "fire",
+     "old": "  if (state.pos()->condition()) {\n    const auto* condition = state.pos()->condition();\n    goals.insert(condition);\n",
+     "new": "  if (const auto* condition = state.pos()->condition()) {\n"},
+    {"name": "condition-absorbed-when-absent", "rule": "R7.3", "file": _tg("solver.cc"), "expect": "fire",
+     "old": "  if (state.pos()->condition()) {\n", "new": "  if (!state.pos()->condition()) {\n"},
+    {"name": "twin-memo-split-into-lookup-and-search", "rule": "R7.4", "expect": "silent",
+     "edits": _split_memo()},
+    {"name": "memo-split-not-finalised", "rule": "R7.4", "expect": "fire",
+     "edits": _split_memo(final="")},
+    {"name": "memo-split-finalised-only-when-false", "rule": "R7.4", "expect": "fire",
+     "edits": _split_memo(final="  if (!result) solved_states_[state] = result;\n")},
+    {"name": "twin-cached-value-hoisted", "rule": "R7.4", "file": _tg("solver.cc"), "expect": "silent",
+     "old": "    return it->second;\n  } else {",
+     "new": "    const bool known_result = it->second;\n    return known_result;\n  } else {"},
+    {"name": "cached-value-negated", "rule": "R7.4", "file": _tg("solver.cc"), "expect": "fire",
+     "old": "    return it->second;\n  } else {",
+     "new": "    const bool known_result = it->second;\n    return !known_result;\n  } else {"},
+    {"name": "memo-split-lookup-returns-constant", "rule": "R7.4", "expect": "fire",
+     "edits": _split_memo() + [(_tg("solver.cc"), "    return it->second;\n  }\n  state_cache_misses_ += 1;",
+                                "    return true;\n  }\n  state_cache_misses_ += 1;")]},
 ]
